@@ -151,6 +151,8 @@ def probe_call(kwargs, kind, logfile=None, loglist=None, ctl=None, hidden=None):
         time.sleep(h / 1e6)
     if key in c.get("fail", ()):
         raise ProbeFailure("probe told to fail on " + key)
+    if key in c.get("unpicklable", ()):
+        return (lambda: None)          # a result that cannot be written to disk
     return make(kind, kwargs, hidden)
 
 
